@@ -16,6 +16,28 @@ Theorem C02_unpack_pack : forall b idx,
 Proof. exact unpack_pack. Qed.
 Print Assumptions C02_unpack_pack.
 
+(* The packed indices of a block always occupy WHOLE 32-bit words: exactly
+   ceil(n / (32 / b)) of them for n indices of b bits (a block whose voxel
+   count does not fill the last word is padded, never cut short), and every
+   word is below 2^32; with 0 bits nothing is stored. *)
+Theorem C02_pack_whole_words : forall b idx,
+  pos_bits b -> Forall (fun v => v < 2 ^ b) idx ->
+  lenN (pack_values b idx) = cdiv (lenN idx) (32 / b) /\
+  Forall (fun w => w < two32) (pack_values b idx) /\
+  pack_values 0 idx = [].
+Proof.
+  intros b idx Hb Hidx.
+  exact (conj (pack_values_length b idx Hb)
+              (conj (pack_values_bound b idx Hidx) (pack_values_0 idx))).
+Qed.
+Print Assumptions C02_pack_whole_words.
+
+(* e.g. 343 indices of 16 bits (a 7x7x7 block with more than 256 labels) take
+   172 words, the last one half used *)
+Example C02_example_odd_block :
+  lenN (pack_values 16 (repeat 1 343)) = 172 /\ cdiv 343 (32 / 16) = 172.
+Proof. split; vm_compute; reflexivity. Qed.
+
 (* Conformance: whenever the encoder returns bytes, the decoder written from
    the format document recovers EVERY voxel — for all chunk shapes, all block
    sizes (non-cubic, larger than the chunk, not dividing it), both label
